@@ -914,7 +914,13 @@ class Filter:
         positional_args, keyword_args = self.evaluate_args(context)
         try:
             return func(left, *positional_args, **keyword_args)
-        except (TypeError, ValueError, ArithmeticError, LookupError) as err:
+        except (
+            TypeError,
+            ValueError,
+            ArithmeticError,
+            LookupError,
+            AttributeError,
+        ) as err:
             raise LiquidTypeError(_str(err), token=self.token) from err
         except LiquidTypeError as err:
             err.token = self.token
@@ -926,7 +932,13 @@ class Filter:
 
         try:
             return func(left, *positional_args, **keyword_args)
-        except (TypeError, ValueError, ArithmeticError, LookupError) as err:
+        except (
+            TypeError,
+            ValueError,
+            ArithmeticError,
+            LookupError,
+            AttributeError,
+        ) as err:
             raise LiquidTypeError(
                 f"{self.name}: {_str(err)}", token=self.token
             ) from err
